@@ -285,15 +285,15 @@ impl PartialEq for Value {
                 .try_into()
                 .map(|a: u64| a == *b)
                 .unwrap_or(false),
-            (Value::Int(a), Value::Float(b)) => (*a as f64) == *b,
+            (Value::Int(a), Value::Float(b)) => cmp_int_float(*a, *b) == Some(Ordering::Equal),
             (Value::UInt(a), Value::Int(b)) => a
                 .to_owned()
                 .try_into()
                 .map(|a: i64| a == *b)
                 .unwrap_or(false),
-            (Value::UInt(a), Value::Float(b)) => (*a as f64) == *b,
-            (Value::Float(a), Value::Int(b)) => *a == (*b as f64),
-            (Value::Float(a), Value::UInt(b)) => *a == (*b as f64),
+            (Value::UInt(a), Value::Float(b)) => cmp_uint_float(*a, *b) == Some(Ordering::Equal),
+            (Value::Float(a), Value::Int(b)) => cmp_int_float(*b, *a) == Some(Ordering::Equal),
+            (Value::Float(a), Value::UInt(b)) => cmp_uint_float(*b, *a) == Some(Ordering::Equal),
             (_, _) => false,
         }
     }
@@ -322,7 +322,7 @@ impl PartialOrd for Value {
                     // If the i64 doesn't fit into a u64 it must be less than 0.
                     .unwrap_or(Ordering::Less),
             ),
-            (Value::Int(a), Value::Float(b)) => (*a as f64).partial_cmp(b),
+            (Value::Int(a), Value::Float(b)) => cmp_int_float(*a, *b),
             (Value::UInt(a), Value::Int(b)) => Some(
                 a.to_owned()
                     .try_into()
@@ -330,10 +330,47 @@ impl PartialOrd for Value {
                     // If the u64 doesn't fit into a i64 it must be greater than i64::MAX.
                     .unwrap_or(Ordering::Greater),
             ),
-            (Value::UInt(a), Value::Float(b)) => (*a as f64).partial_cmp(b),
-            (Value::Float(a), Value::Int(b)) => a.partial_cmp(&(*b as f64)),
-            (Value::Float(a), Value::UInt(b)) => a.partial_cmp(&(*b as f64)),
+            (Value::UInt(a), Value::Float(b)) => cmp_uint_float(*a, *b),
+            (Value::Float(a), Value::Int(b)) => cmp_int_float(*b, *a).map(Ordering::reverse),
+            (Value::Float(a), Value::UInt(b)) => cmp_uint_float(*b, *a).map(Ordering::reverse),
             _ => None,
+        }
+    }
+}
+
+/// Compares an int with a double by the numbers they denote. Casting the int to `f64` would
+/// round it beyond 2^53 and make distinct numbers compare equal. `None` if `b` is NaN.
+fn cmp_int_float(a: i64, b: f64) -> Option<Ordering> {
+    if b.is_nan() {
+        None
+    } else if b >= 9223372036854775808.0 {
+        Some(Ordering::Less)
+    } else if b < -9223372036854775808.0 {
+        Some(Ordering::Greater)
+    } else {
+        // `b` lies within the i64 range, so its integral part converts exactly.
+        let int_part = b.trunc();
+        match a.cmp(&(int_part as i64)) {
+            Ordering::Equal => 0.0.partial_cmp(&(b - int_part)),
+            ord => Some(ord),
+        }
+    }
+}
+
+/// Compares a uint with a double by the numbers they denote. `None` if `b` is NaN.
+fn cmp_uint_float(a: u64, b: f64) -> Option<Ordering> {
+    if b.is_nan() {
+        None
+    } else if b >= 18446744073709551616.0 {
+        Some(Ordering::Less)
+    } else if b < 0.0 {
+        Some(Ordering::Greater)
+    } else {
+        // `b` lies within the u64 range, so its integral part converts exactly.
+        let int_part = b.trunc();
+        match a.cmp(&(int_part as u64)) {
+            Ordering::Equal => 0.0.partial_cmp(&(b - int_part)),
+            ord => Some(ord),
         }
     }
 }
